@@ -280,6 +280,7 @@ pub const POINTS: &[&str] = &[
     "read.after_pread",
     "deferred.before_pread",
     "ttl.sweep.sampled",
+    "flush.allocated",
     "flush.before_journal",
     "flush.before_data",
     "flush.before_clear",
